@@ -7,6 +7,7 @@ mod p_cli;
 mod p_escape;
 mod p_run;
 mod p_expect;
+mod p_rules;
 
 use std::io::{BufWriter, Write};
 
@@ -27,6 +28,7 @@ fn main() {
         "run" => p_run::main(&args[1..], &mut w),
         "crlf-child" => p_run::crlf_child(&args[1..]),
         "expect" => p_expect::main(&args[1..], &mut w),
+        "rules" => p_rules::main(&args[1..], &mut w),
         "consts" => p_consts::main(&args[1..], &mut w),
         x => { eprintln!("unknown subcommand {}", x); std::process::exit(2); }
     }
